@@ -9,14 +9,14 @@ variable {α : Type} [Add α] [Sub α] [Mul α] [Div α] [Neg α] [LT α] [LE α
   [OfNat α 0] [OfNat α 1] [OfNat α 2] [DecidableLT α] [DecidableLE α] [MathOps α] [OfDecimal α]
 
 /-- what the handlers extract from the command text: `gcodeParser.parse(cmd).parameterItems()` -/
-def cmdOfText (t : Text) : Except PyErr (Cmd α) := do
+def cmdOfText (t : Text) (gcode : String := "") : Except PyErr (Cmd α) := do
   let p ← ({} : Parser).parse (some t)
-  .ok { text := t, words := wordsOf (parameterItems p.parameters) }
+  .ok { text := t, words := wordsOf (parameterItems p.parameters), code := gcode }
 
 /-- `GcodeHandlers.handleGcode(cmd, gcode, subcode)` on text -/
 def handleGcodeText (cfg : Config) (inch : α) (s : FState α) (cmd gcode : Text) :
     Except PyErr (FState α × Result α) := do
-  let c ← cmdOfText cmd
+  let c ← cmdOfText cmd (String.ofList (gcode.map upperC))
   handleGcode cfg inch s (String.ofList (gcode.map upperC)) c
 
 /-! ## `StreamProcessor` -/
